@@ -146,6 +146,23 @@ def catalogue(tier, rng):
     bases = base_requests(rng)
     for b in bases:
         add('valid', req=b, expect='ok')
+    # valid but unusual: identical alternatives (nobody can ever be eliminated or preferred), levels up to the full range
+    for b in bases:
+        r = copy.deepcopy(b)
+        r['knownAlternatives'][1]['criteria'] = dict(r['knownAlternatives'][0]['criteria'])
+        r['choseToMake'] = [a['id'] for a in r['knownAlternatives'][:3]]
+        mp = r['methodParameters']
+        if r['preferenceFunction'] == 'aspectEliminationHeuristic':
+            mp['function'] = rng.choice(['idealAdditiveCoefficient', 'idealMultipliedCoefficient'])
+            mp['params'] = {'coefficient': PU // 2, 'minValue': 0, 'maxValue': PU}
+            best = {c['id']: ((c['valuesRange']['max'] if 'valuesRange' in c else PU * 8) if c['type'] == 'gain'
+                              else (c['valuesRange']['min'] if 'valuesRange' in c else -PU * 3)) for c in r['criteria']}
+            r['knownAlternatives'][0]['criteria'] = dict(best)
+            r['knownAlternatives'][1]['criteria'] = dict(best)
+        if r['preferenceFunction'] == 'satisfactionHeuristic':
+            mp['function'] = rng.choice(['idealSubtractiveCoefficient', 'idealMultipliedCoefficient'])
+            mp['params'] = {'coefficient': PU // 2, 'minValue': PU // 4, 'maxValue': PU}
+        add('valid-identical-alternatives', req=r, expect='ok')
     for b in bases[::2]:
         for label, r, exp, kw in mutations(rng, b):
             add(label, req=r, expect=exp, **kw)
